@@ -145,7 +145,13 @@ func (c *ClusterNode) sendShardFile(destination string, path string) error {
 	colDir := filepath.Dir(shardDir)
 	colId := filepath.Base(colDir)
 	userDir := filepath.Dir(colDir)
-	userId := filepath.Base(userDir)
+	// The directory of a user is named after the whole user id, which may span
+	// several levels below the shard root
+	userId, err := filepath.Rel(filepath.Join(c.cfg.ShardManager.RootDir, USERCOLSDIR), userDir)
+	if err != nil {
+		return fmt.Errorf("failed to work out the user of shard file: %w", err)
+	}
+	userId = filepath.ToSlash(userId)
 	for i := 0; ; i++ {
 		// At the end of a file, read returns 0 bytes and io.EOF
 		n, err := f.Read(buf)
